@@ -60,6 +60,13 @@ CHECKS.update({
         ref="DESIGN.md §3 C13"),
 })
 
+CHECKS["C05"] = dict(
+    category="other",
+    text="Structural conformance of every opcode handler to the abstract machine S1: each eval_* function, with the state-component methods inlined down to Vec/HashMap/slice primitives on the State's fields, is executed symbolically; every successful path is normalised to abstract-machine events and compared with the opcode's S1 row (values popped in which order and where each flows, constant kind demanded, ip effect through the label map / method start, frames = [receiver]++arguments in call order++null×locals with return to the next instruction, Return restoring the saved address, Branch polarity per truthiness case). The dispatcher maps each opcode to its own handler and operands; State::from initialises globals to null, indexes functions by name and builds the entry frame; the VM contains no compiler-private names. Necessary, close to sufficient for straight-line instruction semantics; heap/HashMap implementations and run-time values are not decided.",
+    note=TB + "; symbolic executor + std models",
+    technique="static analysis: symbolic execution of the handlers' HIR into effect templates + event-level comparison with an abstract machine table",
+    ref="DESIGN.md §3 C05")
+
 PENDING_REASON = "check under construction in this round (static rules designed in DESIGN.md §3, not yet implemented)"
 
 
